@@ -36,6 +36,8 @@ type c19Case struct {
 	Stages   []stageProg `json:"stages"`
 	Requests int         `json:"concurrent_requests"`
 	Clone    bool        `json:"through_a_clone"` // client chain: requests go through client.Clone()
+	// PreServe: server chains: this many stages are registered before a first (warm-up) request is served, the rest after it
+	PreServe int `json:"stages_registered_before_first_request"`
 }
 
 type traceKey struct{}
@@ -207,6 +209,9 @@ func runServerMessage(c c19Case, reqIdx int) ([]string, modelRes) {
 	exec.Route(kmip.OperationActivate, coreHandler())
 	for i, p := range c.Stages {
 		i, p := i, p
+		if c.PreServe >= 0 && i == c.PreServe {
+			warmUp(exec)
+		}
 		exec.Use(func(next kmipserver.Next, ctx context.Context, rm *kmip.RequestMessage) (*kmip.ResponseMessage, error) {
 			return toReturn(runStage(p, i, ctx, msgID(rm), func(cctx context.Context, id string) modelRes {
 				m := rm
@@ -221,6 +226,12 @@ func runServerMessage(c c19Case, reqIdx int) ([]string, modelRes) {
 	ctx := context.WithValue(context.Background(), traceKey{}, tr)
 	resp := exec.HandleRequest(ctx, mkRequest(fmt.Sprintf("r%d", reqIdx)))
 	return tr.events, respID(resp, nil)
+}
+
+// warmUp serves one request with the stages registered so far (its trace goes to a throw-away log).
+func warmUp(exec *kmipserver.BatchExecutor) {
+	ctx := context.WithValue(context.Background(), traceKey{}, &trace{})
+	_ = exec.HandleRequest(ctx, mkRequest("warm-up"))
 }
 
 // -- server batch-item chain
@@ -251,6 +262,9 @@ func runServerItem(c c19Case, reqIdx int) ([]string, modelRes) {
 	}
 	for i, p := range c.Stages {
 		i, p := i, p
+		if c.PreServe >= 0 && i == c.PreServe {
+			warmUp(exec)
+		}
 		exec.BatchItemUse(func(next kmipserver.BatchItemNext, ctx context.Context, bi *kmip.RequestBatchItem) (*kmip.ResponseBatchItem, error) {
 			r := runStage(p, i, ctx, itemID(bi), func(cctx context.Context, id string) modelRes {
 				b := bi
@@ -502,6 +516,10 @@ func TestC19Chains(t *testing.T) {
 			c.Clone = rapid.IntRange(0, 2).Draw(rt, "clone") == 0
 		}
 		n := rapid.IntRange(0, 4).Draw(rt, "stages")
+		c.PreServe = -1
+		if c.Chain != "client" && n > 0 && rapid.Bool().Draw(rt, "registerlater") {
+			c.PreServe = rapid.IntRange(0, n-1).Draw(rt, "preserve")
+		}
 		for i := 0; i < n; i++ {
 			var p stageProg
 			k := rapid.SampledFrom([]int{1, 1, 1, 0, 2, 2, 3}).Draw(rt, "calls")
